@@ -30,6 +30,8 @@ structure Node where
   entryVal : Rec → Rec         -- nodep: caller's arguments ↦ what the node's method writes into the decoupling Pipe
   gen : Rec → Rec → Rec        -- input record, given values (caller's arguments / decoupling Pipe content) ↦ generated fields
   merge : Rec → Rec → Rec      -- input record, generated fields ↦ record written to the next link (pipeline.py:497-501)
+  guard : Rec → Bool           -- argument validation (`validate_arguments`) of the node's method on the required fields:
+                               -- the combiner can run only for an input record that passes
 
 /-- the node's stage function on whole records -/
 def Node.apply (nd : Node) (r x : Rec) : Rec := nd.merge r (nd.gen r x)
@@ -75,7 +77,9 @@ def fireOf (first : Bool) (nd : Node) (st : NodeSt) (ev : Ev) : Except String (O
   if ev.fire then
     match (if first then some [] else st.q.head?), (if nd.nodep then st.nq.head? else some ev.x) with
     | some r, some x =>
-      .ok (some { inp := r, given := x, ret := nd.ret r, gen := nd.gen r x, out := nd.apply r x })
+      if nd.guard r then
+        .ok (some { inp := r, given := x, ret := nd.ret r, gen := nd.gen r x, out := nd.apply r x })
+      else .error "combiner ran although the argument validation of the node's method rejects the item"
     | none, _ => .error "combiner ran but the link in front of it is empty"
     | _, none => .error "combiner ran but the decoupling pipe is empty"
   else .ok none
@@ -135,6 +139,7 @@ structure Desc where
   isPipe : Bool
   req : List Nat          -- required fields
   gen : List GenSpec      -- generated fields (coefficients unused for external nodes)
+  vpred : Option (Nat × Nat)   -- `(field, mask)`: the node's method validates `(field & mask) != 0` on the required fields
 deriving Repr, DecidableEq
 
 def Desc.genFields (d : Desc) : List Nat := d.gen.map (·.field)
@@ -169,6 +174,11 @@ def evalGen (widths : List Nat) (reqVals : Rec) (g : GenSpec) : Option (Nat × N
 def mkNode (widths : List Nat) (d : Desc) (live : List Nat) : Node :=
   let compute : Rec → Rec := fun r => d.gen.filterMap (evalGen widths (proj d.req r))
   { nodep := d.nodep, cap := d.cap, isPipe := d.isPipe
+    guard := fun r => match d.vpred with
+      | none => true
+      | some (f, mask) => match lookup r f with
+        | some v => (v &&& mask) != 0
+        | none => false
     ret := proj d.req
     entryVal := fun x => if d.ext then proj d.genFields x else compute []
     gen := fun r x => if d.ext || d.nodep then proj d.genFields x else compute r
